@@ -115,7 +115,7 @@ def _arr(ctx, name, shape, positive=False):
     return qarray(a) if ctx.sym else a
 
 
-@harness("C08.spectral-density", cases=lambda tier: [(1,), (2,), (3,), (3, 2)] + ([(4,), (2, 2, 2)] if tier == "thorough" else []),
+@harness("C08.spectral-density", cases=lambda tier: [(1,), (2,), (3,), (3, 2)] + ([(4,), (5,), (2, 2, 2), (3, 2, 2), (4, 3)] if tier == "thorough" else []),
          expect=lambda c: ["perwavelength-jacobian-and-reversal", "perwavelength-roundtrip",
                            "perwavenumber-jacobian", "perwavenumber-roundtrip", "grids-are-converted"])
 def k_density(ctx):
@@ -182,7 +182,7 @@ PLAN = {
 }
 BOUNDS = {"quick": {"planck / Tb": "all f, T > 0 and all positive h, k, c (scalar arguments)",
                     "spectral density converters": "grids of length <= 3, spectra of shape (n,) and (3,2)"},
-          "thorough": {"spectral density converters": "adds n = 4 and shape (2,2,2)"}}
+          "thorough": {"spectral density converters": "adds n = 4, 5 and shapes (2,2,2), (3,2,2), (4,3)"}}
 OUTSIDE = ["the limit hf/kT -> 0 as a limit", "cancellation of exp(x) - 1 in doubles and the numeric range 1e-6..600",
            "snell / fresnel (trigonometric; see DESIGN.md)", "array broadcasting of planck beyond scalars"]
 STUBS = ["exp / log -> Ackermannised uninterpreted functions with E > 0, E >= 1 + x, monotonicity, L(E(x)) = x",
